@@ -15,7 +15,7 @@ def gen_body(rng, depth=0):
     for _ in range(rng.randint(1, 5)):
         k = rng.random()
         if k < 0.4:
-            out.append({"k": "assign", "n": rng.choice(NAMES)})
+            out.append({"k": "assign", "n": rng.choice(NAMES), "eff": rng.random() < 0.3})
         elif k < 0.7 or depth >= 2:
             out.append({"k": "read", "n": rng.choice(NAMES)})
         else:
@@ -29,7 +29,7 @@ def render(body, indent=1, counter=None) -> str:
     lines = []
     for s in body:
         if s["k"] == "assign":
-            lines.append(f"{pad}{s['n']} = 1\n")
+            lines.append(f"{pad}{s['n']} = {'effect(1)' if s.get('eff') else '1'}\n")
         elif s["k"] == "read":
             lines.append(f"{pad}print({s['n']})\n")
         else:
@@ -57,7 +57,7 @@ def parse_back(code: str):
                 continue
             for small in st.body:
                 if isinstance(small, cst.Assign):
-                    out.append({"k": "assign", "n": small.targets[0].target.value})
+                    out.append({"k": "assign", "n": small.targets[0].target.value, "eff": isinstance(small.value, cst.Call)})
                 elif isinstance(small, cst.Expr) and isinstance(small.value, cst.Call):
                     out.append({"k": "read", "n": small.value.args[0].value.value})
                 elif isinstance(small, cst.Expr) and isinstance(small.value, cst.Lambda):
@@ -92,8 +92,19 @@ def real_clean(code: str) -> str:
     return RemoveUnusedVariables(CodemodContext()).transform_module(cst.parse_module(code)).code
 
 
+def effects_of(body) -> list[str]:
+    """names of the assignments whose right-hand side is a call, in source order (the model's `Body.effects`)"""
+    out = []
+    for st in body:
+        if st["k"] == "assign" and st.get("eff"):
+            out.append(st["n"])
+        elif st["k"] == "scope":
+            out += effects_of(st["b"])
+    return out
+
+
 def strip_render_hints(body):
-    return [{"k": s["k"], "n": s["n"]} if s["k"] != "scope" else {"k": "scope", "b": strip_render_hints(s["b"])} for s in body]
+    return [{k: v for k, v in s.items() if k in ("k", "n", "eff")} if s["k"] != "scope" else {"k": "scope", "b": strip_render_hints(s["b"])} for s in body]
 
 
 def walrus_program(rng):
@@ -126,7 +137,7 @@ def walrus_body(code: str):
                 out.append({"k": "read", "n": st.test.value}); continue
             for small in st.body:
                 if isinstance(small, cst.Assign):
-                    out.append({"k": "assign", "n": small.targets[0].target.value})
+                    out.append({"k": "assign", "n": small.targets[0].target.value, "eff": isinstance(small.value, cst.Call)})
                 elif isinstance(small, cst.Expr) and isinstance(small.value, cst.Call):
                     out.append({"k": "read", "n": small.value.args[0].value.value})
                 elif isinstance(small, cst.Expr) and isinstance(small.value, cst.Lambda):
